@@ -60,7 +60,9 @@ def gen_matrix(ctx):
     out.append(dict(film=films[0], holes=holesets[3], terminals=termsets[2], mesh=dict(max_edge_length=0.7, smooth=5), xi=0.5))
     out.append(dict(film=films[8], holes=[], terminals=termsets[1], mesh=dict(), xi=2.0, units="nm"))
     # ... and seeded random combinations
-    n_rand = 10 if ctx.quick else 220
+    n_rand = 30 if ctx.quick else 1000
+    if not ctx.quick:
+        meshes = meshes + [dict(max_edge_length=0.45), dict(max_edge_length=0.5, smooth=40), dict(min_points=300)]
     for _ in range(n_rand):
         f = copy.deepcopy(rnd.choice(films))
         if "points" in f:
@@ -111,7 +113,7 @@ def run(ctx):
     ctx.cov["meshes_generated"] = len(gen)
     ctx.cov["meshes_refused_by_the_code"] = [{"exc": t["exc"], "msg": t["msg"], "input": json.loads(t["key"])} for t in refused][:10]
     ctx.cov["meshes_refused_count"] = len(refused)
-    if len(refused) * 3 > len(gens):
+    if len(refused) * 2 > len(gens):
         raise core.MachineryFailure(f"C07: {len(refused)} of {len(gens)} device descriptions were refused by make_mesh: {refused[0]}")
     # ---- 3/4. code -> spec
     acc_e = mg.validate_parallel(ctx, exact, "exact")
@@ -185,7 +187,7 @@ def canaries(ctx, exact, acc_e, gen, acc_g):
     bad = []
     if not acc_e or not acc_g:
         raise core.MachineryFailure("C07: no accepted trace can carry a canary")
-    for mut in ("area", "ratio", "bflag", "dir"):
+    for mut in ("area", "ratio", "bflag", "dir", "ref"):
         t = copy.deepcopy(mg.strip_trace(exact[rnd.choice(sorted(acc_e))]))
         ob = t["ob"]
         if mut == "area":
@@ -194,6 +196,8 @@ def canaries(ctx, exact, acc_e, gen, acc_g):
             ob["R"][-1] -= 7
         elif mut == "bflag":
             ob["B"][0] = not ob["B"][0]
+        elif mut == "ref":      # the reference numerics are themselves under validation
+            ob["refA"][-1] += 7
         else:
             ob["D"][0][0] += 1
         bad.append(t)
@@ -225,3 +229,32 @@ def canaries(ctx, exact, acc_e, gen, acc_g):
     if acc:
         raise core.MachineryFailure(f"C07: corrupted observations {sorted(acc)} were accepted — the binding is vacuous")
     ctx.cov["canaries_rejected"] += len(bad)
+
+
+def replay(ctx, path):
+    """`./check C07 --replay <file>`: rebuild the recorded mesh on the current tree and re-validate it."""
+    rec = json.load(open(path))
+    t = rec.get("trace")
+    if not t:
+        print(f"replay file {path} records a model-level counterexample:\n{rec.get('counterexample', '')[:3000]}")
+        return 1
+    tdgl = core.import_tdgl()
+    if t["kind"] == "exact":
+        inst = {"name": "replayed", "b": 0, "o": 0, "m": 0, "n": 0, "exp": {"P": t["P"], "T": t["T"]}}
+        new = mg.exact_observation(tdgl, inst)
+        new["pydiff"] = None
+        clauses = mg.CLAUSES_EXACT
+    else:
+        new = mg.gen_trace(tdgl, json.loads(t["key"]), None)
+        clauses = mg.CLAUSES_GEN
+        if new["kind"] == "refused":
+            print(f"replay: make_mesh now refuses this input: {new['exc']} {new['msg']}")
+            return 1
+    acc, r = ctx.validate_traces("MeshGeomTrace", [mg.strip_trace(new)], mg.trace_cfg(), name="replay")
+    if acc:
+        print(f"replay: the recorded input is now accepted (property {ctx.pid} holds on it)")
+        return 0
+    report(ctx, [new], set(), clauses, "replay")
+    for v in ctx.violations:
+        print(f"VIOLATION property={ctx.pid} replay={v['replay']}\n  what: {v['what']}")
+    return 1
